@@ -73,6 +73,10 @@ func c05Model(init c05State) porcupine.Model {
 				s.kind = in.SKind
 				return []interface{}{s}
 			case "acquire":
+				if output == "panicked" {
+					// answered 500 by the panic-recovery filter: not admitted, not a refusal
+					return []interface{}{s}
+				}
 				ok := output.(bool)
 				switch s.kind {
 				case kMIF:
@@ -141,6 +145,11 @@ func RunC05(r *sim.Run) {
 	other := flowcontrols.NewUpstreamLimiter(ctx, "c2", "", nil)
 	byM := int32(t.Range(1, 3))
 	curKind, curM := kMIF, M
+	if hasCfg && t.Draw(3) == 0 {
+		// the schema starts as another type and becomes max-in-flight later
+		curKind = []int{kTB, kExempt, kAbsent}[t.Draw(3)]
+	}
+	initKind := curKind
 	spec := func(kind int, m int32) proxyv1alpha1.FlowControl {
 		var fc proxyv1alpha1.FlowControl
 		if s, ok := c05Schema("s", kind, m); ok {
@@ -209,13 +218,14 @@ func RunC05(r *sim.Run) {
 				case "acquire":
 					// exactly what the dispatcher does
 					fc := lim.GetOrDefault("s")
+					panicked := false
 					ok := func() (ok bool) {
 						// a panic inside the handler chain is answered 500 by the
 						// gateway's panic-recovery filter: the request is not admitted
 						defer func() {
 							if p := recover(); p != nil {
 								r.Probe("acquire_panicked_recovered_as_500")
-								ok = false
+								ok, panicked = false, true
 							}
 						}()
 						return fc.TryAcquire()
@@ -228,6 +238,9 @@ func RunC05(r *sim.Run) {
 						refused++
 					}
 					out = ok
+					if panicked {
+						out = "panicked"
+					}
 				case "release":
 					if held == nil {
 						continue // the request was answered 429: nothing to give back
@@ -319,7 +332,7 @@ func RunC05(r *sim.Run) {
 		}
 	}
 	r.Checked("linearizable")
-	init := c05State{kind: kMIF, m: M, epoch: 1}
+	init := c05State{kind: initKind, m: M, epoch: 1}
 	res := porcupine.CheckOperationsTimeout(c05Model(init), hist, 20*time.Second)
 	switch res {
 	case porcupine.Illegal:
